@@ -11,7 +11,7 @@ import sqlite3
 import common
 from c04 import BASE, Clock, Tokens, from_us, install_clock, to_us
 
-GEN_DEPS = ("gen_uploadflow", "gen_commands")
+GEN_DEPS = ("gen_uploadflow", "gen_commands", "gen_idmanager")
 ASSUMPTIONS = [
     "the stream contract: a failing write/flush raises and nothing after it happens; process death = no further statement runs (sqlite autocommit statements already executed stay committed)",
     "the escapes written are those of GraphicsCommand.send (property C05); here they are a parameter",
